@@ -22,8 +22,8 @@ CHECKS = {
          "Trusted base: R-cal and the 10-line shift model in harness/src/props/c04.rs. Offsets are whole seconds so the nanosecond field is never touched by the model.",
          "DESIGN.md section 3 C04"),
  "C05": ("proptest over structured zone models written by a reference TZif writer (v1/v2/v3, 0-40 spaced or tight transitions, fixed/alternate footers), over POSIX TZ rules (all day forms, both hemispheres, negative DST, extended times) and over the system zoneinfo files read by an independent reader; probes dense around every transition; differential against the RFC 8536 step-function model R-zone; child-process sub-check driving every public Local route (TZ = generated rule or system zone) against R-zone",
-         "For every zone the offset reported at an instant must be the one the zone data prescribe; instant -> wall clock -> back must contain the instant (Single, or two distinct candidates earliest first); wall times occurring once/twice/never must give Single/Ambiguous(earliest, latest)/None (the three boundary seconds the statement exempts are only checked for the round trip). Driven through the guarded read-only hook (zone from bytes / TZ string, the two lookups); the public Local route is exercised by C18.",
-         "Trusted base: R-zone (harness/src/refmodel/zone.rs: offset_at, rule evaluator, preimage, TZif writer/reader, TZ parser), validated at development time against CPython's zoneinfo on all 600 system zones (130,268 offset and fold/gap comparisons, 0 mismatches; tools/validate_zone_model.py). Domain: offsets inside (-24 h, 24 h); consecutive transitions far enough apart that their skipped/repeated wall-clock intervals do not overlap; rule transitions more than a day inside the year with the same start/end order every year.",
+         "For every zone the offset reported at an instant must be the one the zone data prescribe; instant -> wall clock -> back must contain the instant (Single, or two distinct candidates earliest first); wall times occurring once/twice/never must give Single/Ambiguous(earliest, latest)/None (the three boundary seconds the statement exempts are only checked for the round trip). Driven through the guarded read-only hook (zone from bytes / TZ string, the two lookups); every public Local route (lookups, deprecated date routes, Date<Local> + time of day, arrival by arithmetic, text / serde round trips) is driven in child processes by the local_routes sub-check, and by C18.",
+         "Trusted base: R-zone (harness/src/refmodel/zone.rs: offset_at, rule evaluator, preimage, TZif writer/reader, TZ parser), validated at development time against CPython's zoneinfo on all 600 system zones (130,268 offset and fold/gap comparisons, 0 mismatches; tools/validate_zone_model.py). Domain: offsets inside (-24 h, 24 h); consecutive transitions far enough apart that their skipped/repeated wall-clock intervals do not overlap; rule transitions more than a day inside the year with the same start/end order every year; rules whose daylight time lasts less than two days (down to zero length) are judged in the offset direction, and in the round-trip direction unless known finding F22 (wall-clock lookup under such rules, re-confirmed by a probe on every run) is active.",
          "DESIGN.md section 3 C05"),
  "C06": ("proptest (edge-biased i128 model values, limit-straddling operand pairs) differential against exact i128 arithmetic, range invariant on every returned value",
          "Every constructor, accessor, checked/operator arithmetic form, Sum, std conversion and the Display text of TimeDelta is compared with exact i128 nanosecond arithmetic on millions of generated cases per run, with generators that aim operands at the range limits, at unit-constructor limits and at products that straddle the limit; every returned duration is re-read and must lie in the closed range. Sampled, not exhaustive.",
